@@ -39,6 +39,8 @@ def jobs(tier):
             if c["motifs"] and max(len(x) for x in c["motifs"]) > k:
                 continue
             J.append(dict(side="local", k=k, local=dict(c, k=k)))
+    J.append(dict(side="sparse", k=8, accepted=["ATATATAT"]))
+    J.append(dict(side="sparse", k=7, accepted=["ACGTACG", "TTTTTTT", "GATTACA"]))
     J.append(dict(side="history", k=2))
     J.append(dict(side="history", k=3))
     J.append(dict(side="valid", k=1, free=list(range(4)), base=[0] * 4, dtype="int"))
@@ -95,6 +97,27 @@ def body(e, L, cfg):
         return gen.body_valid(e, L, cfg)
     if cfg["side"] == "history":
         return body_history(e, L, cfg)
+    if cfg["side"] == "sparse":
+        # concrete probe outside the symbolic bound: a very sparse user-defined filter at a large observed length
+        acc_ = set(cfg["accepted"])
+
+        class Sparse(L.DefaultBioFilter):
+            def __init__(self):
+                super().__init__(screen_name="sparse")
+
+            def valid(self, dna_string):
+                return str(dna_string) in acc_
+        cex = {"kind": "find_vertices", "k": cfg["k"], "accepted": sorted(acc_)}
+        try:
+            r = L.find_vertices(cfg["k"], Sparse())
+        except core.Abort:
+            raise
+        except Exception as ex:
+            return {"status": "viol", "why": "find_vertices raised %s although the filter accepts %d k-mers" % (type(ex).__name__, len(acc_)), "cex": cex}
+        got = [kmer(v, cfg["k"]) for v, x in enumerate(r.tolist()) if x]
+        if sorted(got) != sorted(acc_):
+            return {"status": "viol", "why": "sparse filter: mask marks %s" % got[:5], "cex": cex}
+        return {"status": "ok", "sample": {"sparse": sorted(acc_), "k": cfg["k"]}}
     k = cfg["k"]
     N = 4 ** k
     if cfg["side"] == "local":
